@@ -17,6 +17,7 @@ Exploration: per-call contract from every state (buffered prefix X, scripted res
 covers call sequences of any length by induction on the state (rbuf, socket); plus raw (not deduplicated)
 call sequences <= 3 compared with the whole-stream transcript, to validate that state abstraction.
 """
+import inspect
 import itertools
 import os
 import random
@@ -53,6 +54,9 @@ class S:  # scripted socket: chunks / 'T' = socket.timeout; b'' after the end; s
         return k
     def pending(s): return s.cur + b''.join(x for x in s.q if x != 'T')
 '''
+
+
+MODEL_SRC = inspect.getsource(model) + inspect.getsource(consumed)
 
 
 def flat(script):
@@ -148,35 +152,36 @@ def whole(stream, calls, cfg):
 
 
 def snippet_for(X, script, calls, cfg):
-    stream = X + flat(script)
-    exp, R = [], stream
+    "replay program: the witness schedule and the whole-stream schedule, each against the reference model"
+    return SNIP_HDR + MODEL_SRC + '''
+def check(X, script, calls, recvsize, timeout):
+    stream = X + b''.join(x for x in script if x != 'T')
+    sock = S(([X] if X else []) + script)
+    bs = BufferedSocket(sock, timeout=timeout, maxsize=%d, recvsize=recvsize)
+    if X: assert bs.peek(len(X)) == X
+    done = b''
     for c in calls:
-        e, R2 = model(R, c)
-        if e[0] == 'prefix':
-            return None
-        exp.append(e)
-        R = R2
-    return SNIP_HDR + '''stream, X, script, calls = %r, %r, %r, %r
-sock = S(([X] if X else []) + script)
-bs = BufferedSocket(sock, timeout=%r, maxsize=%d, recvsize=%d)
-if X: bs.peek(len(X))
-done, outs = b'', []
-for c in calls:
-    while True:
-        used = b''
-        try:
-            if c[0] == 'recv_until': v = bs.recv_until(c[1], maxsize=c[2], with_delimiter=c[3]); used = v if c[3] else v + c[1]
-            elif c[0] == 'recv_close': v = used = bs.recv_close(maxsize=c[1])
-            else: v = getattr(bs, c[0])(c[1]); used = b'' if c[0] == 'peek' else v
-            out = ('ret', v)
-        except Timeout: out = ('Timeout',)
-        except ConnectionClosed: out = ('ConnectionClosed',)
-        except MessageTooLong: out = ('MessageTooLong',)
-        assert done + used + bs.getrecvbuffer() + sock.pending() == stream, (c, out, done + used, bs.getrecvbuffer(), sock.pending())
-        if out != ('Timeout',): break
-    done += used; outs.append(out)
-assert outs == %r, outs
-''' % (stream, X, list(script), list(calls), cfg[1], CTOR_MAX, cfg[0], exp)
+        while True:
+            used = b''
+            try:
+                if c[0] == 'recv_until': v = bs.recv_until(c[1], maxsize=c[2], with_delimiter=c[3])
+                elif c[0] == 'recv_close': v = bs.recv_close(maxsize=c[1])
+                else: v = getattr(bs, c[0])(c[1])
+                out, used = ('ret', v), consumed(c, v)
+            except Timeout: out = ('Timeout',)
+            except ConnectionClosed: out = ('ConnectionClosed',)
+            except MessageTooLong: out = ('MessageTooLong',)
+            assert done + used + bs.getrecvbuffer() + sock.pending() == stream, (c, out, done + used, bs.getrecvbuffer(), sock.pending())
+            if out != ('Timeout',): break
+        R = stream[len(done):]
+        exp = model(R, c)[0]
+        if exp[0] == 'prefix': assert out[0] == 'ret' and R.startswith(out[1]) and len(out[1]) <= c[1] and (out[1] or not R), (c, out, R)
+        else: assert out == exp, (script, c, out, exp)
+        done += used
+X, script, calls = %r, %r, %r
+check(X, script, calls, %d, %r)
+check(b'', [X + b''.join(x for x in script if x != 'T')], calls, %d, %r)
+''' % (CTOR_MAX, X, list(script), list(calls), cfg[0], cfg[1], cfg[0], cfg[1])
 
 
 def classify(X, script, calls, cfg, fail):
@@ -198,9 +203,11 @@ def case(H, part, X, script, calls, cfg, nontrivial):
          sample=dict(buffered=repr(X), script=repr(list(script)), calls=repr(calls), recvsize=cfg[0]) if want_sample(H) else None)
     _, f = run_calls(X, script, calls, cfg, whole(stream, calls, cfg))
     if f:
-        H.fail(f[0], f[1], classify(X, script, calls, cfg, f),
-               dict(buffered=repr(X), script=repr(list(script)), calls=repr(calls), recvsize=cfg[0], timeout=cfg[1]),
-               f[2], snippet_for(X, list(script), calls, cfg))
+        wc = classify(X, script, calls, cfg, f)
+        wit = dict(buffered=repr(X), script=repr(list(script)), calls=repr(calls), recvsize=cfg[0], timeout=cfg[1])
+        cur = H.failures.get((f[0], f[1], wc))      # the harness keeps the smallest witness: build a snippet only for it
+        H.fail(f[0], f[1], wc, wit, f[2],
+               snippet_for(X, list(script), calls, cfg) if cur is None or len(repr(wit)) < cur['_size'] else None)
 
 
 def want_sample(H):
@@ -422,7 +429,19 @@ for p in payloads:
             H.ev(key=('nsw', payloads, sends, maxsize), part='netstring')
             f = run_write_ns(payloads, sends, maxsize)
             if f:
-                H.fail(f[0], f[1], 'any payload', dict(payloads=repr(payloads), send_script=repr(sends)), f[2])
+                H.fail(f[0], f[1], 'any payload', dict(payloads=repr(payloads), send_script=repr(sends)), f[2],
+                       SNIP_HDR + '''payloads, sends = %r, %r
+sock = S(sends=sends); ns = NetstringSocket(sock, timeout=1000.0%s); want = b''
+for p in payloads:
+    want += str(len(p)).encode() + b':' + p + b','
+    try: ns.write_ns(p)
+    except Timeout: pass
+    assert sock.wire + ns.bsock.getsendbuffer() == want, (sock.wire, ns.bsock.getsendbuffer(), want)
+for _ in range(len(sends) + 1):
+    try: ns.bsock.flush()
+    except Timeout: pass
+assert sock.wire == want, (sock.wire, want)
+''' % (list(payloads), list(sends), '' if maxsize is None else ', maxsize=%d' % maxsize))
         if H.out_of_time(frac):
             H.note_truncated('netstring: stopped at payloads %r by the time budget' % (payloads,))
             return
@@ -456,8 +475,8 @@ def run():
                      'timeout, or data already buffered (for send/netstrings: a non-empty send script / more than one chunk)',
                 bounds=dict(
                     quick='per-call contract from every state (buffered prefix, composition of the rest, <=2 timeouts in any '
-                          'slots): distinct-byte streams <=6 x recv_size/peek/recv/recv_close sizes 1..len+1 x recvsize {7,1,2,3} '
-                          'x timeout {1000s,None}; all streams <=5 over {a,:} x recv_until delimiters {:, ::, a:} x maxsize '
+                          'slots): distinct-byte streams <=6 x recv_size/peek/recv/recv_close sizes 1..len+1 x (recvsize, timeout) in '
+                          '{(7,1000s),(7,None),(1,1000s),(2,None),(3,1000s)}; all streams <=5 over {a,:} x recv_until delimiters {:, ::, a:} x maxsize '
                           '1..len+1,None (with_delimiter=True: maxsize len,len+1,None); all streams <=4 over {a,b,:} containing b x delimiter a:; raw call '
                           'sequences <=3 over 6 calls on streams <=4, <=1 timeout; send histories <=3 x partial-send scripts <=3; '
                           'netstrings: 1 payload <=3 bytes over {1,:,",",a}, 2 payloads <=2/<=1, all compositions, <=1 timeout',
@@ -467,7 +486,7 @@ def run():
     th, part = H.thorough, H.args.part
     D = [b'abcdef'[:m] for m in range(7)]
     if part in (None, 'sizes'):
-        part_states(H, 'sizes', D, size_calls, [(r, t) for r in ((7, 1, 2, 3, 4, 5, 6) if th else (7, 1, 2, 3)) for t in (BIG, None)], 2, 0.2)
+        part_states(H, 'sizes', D, size_calls, [(r, t) for r in (7, 1, 2, 3, 4, 5, 6) for t in (BIG, None)] if th else [(7, BIG), (7, None), (1, BIG), (2, None), (3, BIG)], 2, 0.2)
         part_states(H, 'sizes', list(words([b'a', b':'], 4 if th else 3)), size_calls, [(7, BIG)], 2, 0.25)
     if part in (None, 'until'):
         part_states(H, 'until', list(words([b'a', b':'], 6 if th else 5)), lambda R: until_calls(R, [b':', b'::', b'a:']),
